@@ -52,7 +52,7 @@ PROPS = {
              "all sequences over a 3-letter alphabet of length 5 (thorough: 7) through Slopes, Peaks (values) and Peaks (slopes) with the value-path/slope-path comparison; random shapes with NaN. Non-trivial: >= 3 ops.",
              nontrivial=["multi"]),
     "C01": P(["C01"], ["C01."],
-             "all 65 binary nestings of k<=6 probe stages (Pipe::new and `|`, random UnitPipe wrappers) over real stateful filters (integrate, differentiate, delay, median, max, min, mean, ema, convolve) fed random samples, with the per-stage invocation log compared; the same with a source as first stage (FromIter / Take<Increment>, pulled past the end) and with a sink as last stage (finalised mid-stream and at the end). Non-trivial: >= 3 ops and at least two stages.",
+             "all 65 binary nestings of k<=6 probe stages (Pipe::new and `|`, random UnitPipe wrappers) over stateful, mutually non-commuting stages defined by the harness itself (running sum plus offset, affine map, one-sample lag, running maximum — so that a defect of a library filter cannot raise a C01 alarm) fed random samples, with the per-stage invocation log compared; the same with a source as first stage (FromIter / Take<Increment> / a scripted NON-fused source that reports the end and yields again; pulled past the end) and with a sink as last stage (finalised mid-stream and at the end). Non-trivial: >= 3 ops and at least two stages.",
              nontrivial=["pipe.k2", "pipe.k3", "pipe.k4", "pipe.k5", "pipe.k6"]),
     "C10": P(["C10"], ["C10.", "C20.source-cache"],
              "enumerated: every adapter over the empty / one-element / three-element / infinite source with counts 0..3, all depth-2 combinations with the edge pad, all chains of two leaves; random adapter trees of depth <= 3 (12 adapters), pulled 4..16 times (past the end); Peek with random peek/pull interleavings; Cache with cached() after every pull. Non-trivial: >= 3 ops and an adapter (not a bare leaf) involved.",
@@ -62,7 +62,10 @@ PROPS = {
              nontrivial=["sink.multi", "sink.fin-many"]),
     "C12": P(["C12"], ["C12.", "C20.cached"],
              "every resettable filter kind (22 kinds + cache wrappers over 9 inner kinds): random configuration, history long enough to fill windows, reset, configuration compared, then the reset instance and a freshly constructed one fed identical inputs (outputs must coincide), further resets at random points. Non-trivial: >= 3 ops and a reset executed.",
-             nontrivial=["reset"]),
+             nontrivial=["reset"],
+             # value disagreements of a single filter belong to that filter's property; C12 is decided by the
+             # reset-vs-fresh differential, the configuration and the cache slot
+             diff_ops=["same", "cfg", "reset", "fresh", "new"]),
     "C13": P(["C13"], ["C13."],
              "exp::Mean<Q> and median::exp::Median<Q>: gains in [0,1] (end points included) and outside; random rationals, constants. Non-trivial: >= 3 ops, at least two samples.",
              nontrivial=["multi"]),
@@ -83,7 +86,8 @@ PROPS = {
              nontrivial=["ledger.nonempty"], diff_ops=["live"]),
     "C20": P(["C20"], ["C20."],
              "every filter kind: copy by clone or by guts round-trip at a random point; identical continuations must coincide, different continuations must be independent (copy equals a fresh instance replaying the copy's history); cache wrapper against the bare filter. Non-trivial: >= 3 ops and a copy made.",
-             nontrivial=["clone", "gutsrt"]),
+             nontrivial=["clone", "gutsrt"],
+             diff_ops=["same", "cfg", "clone", "gutsrt", "fresh", "new"]),
 }
 
 FLOATS = ("Float rounding is outside every theorem (theorems are over exact ordered fields / arbitrary total orders); "
